@@ -81,17 +81,17 @@ Definition radial_den (n m k : Z) : Z :=
   factZ k * factZ (Z.quot ((n + m) - k * 2) 2) * factZ (Z.quot ((n - m) - k * 2) 2).
 Definition radial_smax (n m : Z) : Z := Z.quot ((n - Z.abs m) + 2) 2.
 Definition radial_coefs (n m : Z) : list (Z * Q) :=
-  map (fun k => (n - 2 * k, (inject_Z (radial_num n m k) / inject_Z (radial_den n m k))%Q))
+  map (fun k => (n - 2 * k, Qred (inject_Z (radial_num n m k) / inject_Z (radial_den n m k))%Q))
       (rangeZ 0 (radial_smax n m)).
 
-(** exact evaluation and the exact radial inner product  int_0^1 p(r) q(r) r dr  using
+(** exact evaluation and the exact radial inner product ([Qred] only normalises the fraction)  int_0^1 p(r) q(r) r dr  using
     int_0^1 r^e r dr = 1/(e+2) termwise *)
 Definition qpow (r : Q) (e : Z) : Q := Qpower r e.
 Definition eval_Q (p : list (Z * Q)) (r : Q) : Q :=
   fold_left (fun acc ec => (acc + snd ec * qpow r (fst ec))%Q) p 0%Q.
 Definition inner_Q (p q : list (Z * Q)) : Q :=
   fold_left (fun acc ec =>
-    fold_left (fun acc' ec' => (acc' + snd ec * snd ec' / inject_Z (fst ec + fst ec' + 2))%Q) q acc) p 0%Q.
+    fold_left (fun acc' ec' => Qred (acc' + snd ec * snd ec' / inject_Z (fst ec + fst ec' + 2))%Q) q acc) p 0%Q.
 
 (** squared normalisation constants as exact rationals (np.sqrt of these in the code) *)
 Definition norm2_std (n m : Z) : Q := (inject_Z (2 * n + 2) / inject_Z (1 + (if m =? 0 then 1 else 0)))%Q.
